@@ -157,6 +157,119 @@ example : (0 : Int) ≤ 5 ∧ (5 : Int) ≤ sumProbs [(10, 0), (42, 3), (7, 0), 
     sample .fixed (· + ·) 5 [(10, 0), (42, 3), (7, 0), (99, 5)] = some (99, 5) ∧
     sample .legacy (· + ·) 3 [(10, 0), (42, 3), (7, 0), (99, 5)] = some (42, 3) := by decide
 
+/-! ## T5 The cumulative-sum walk -/
+
+/-- **C33.T5a** The walk of the current code, for every draw, probability list and addition:
+it returns the first candidate whose cumulative sum exceeds the draw `r`, and — the
+off-the-end case, when no cumulative sum exceeds `r` because rounding left the total `≤ r` —
+the last candidate with probability `> 0` (`none`, i.e. index 0 after `unwrap_or`, only if
+there is no such candidate). -/
+theorem c33_T5_walk_characterised (add : Int → Int → Int) (r : Int) (cands : List (Nat × Int)) :
+    multinomial .fixed add r cands =
+      match firstExceed add r 0 cands with
+      | some c => some c
+      | none => lastPos cands := by
+  simp only [multinomial, lastPos]
+  exact mnLoop_fixed_eq add r cands 0 none
+
+/-- **C33.T5b** "First index whose cumulative sum exceeds `r`": the candidate found splits the
+list so that the running sum through it exceeds `r` and no shorter non-empty prefix's does;
+nothing is found iff no prefix's running sum exceeds `r`. -/
+theorem c33_T5_first_exceeding (add : Int → Int → Int) (r : Int) (cands : List (Nat × Int)) :
+    (∀ c, firstExceed add r 0 cands = some c →
+      ∃ pre post, cands = pre ++ c :: post ∧ r < runSum add 0 (pre ++ [c]) ∧
+        ∀ n, 0 < n → n ≤ pre.length → ¬ r < runSum add 0 (pre.take n)) ∧
+    (firstExceed add r 0 cands = none →
+      ∀ n, 0 < n → n ≤ cands.length → ¬ r < runSum add 0 (cands.take n)) :=
+  ⟨fun c h => firstExceed_some add r cands 0 c h, firstExceed_none add r cands 0⟩
+
+/-- **C33.T5c** Off the end: the fallback is the *last* candidate with probability `> 0`
+(everything after it has probability `≤ 0`), or nothing when no candidate is positive. -/
+theorem c33_T5_off_the_end (cands : List (Nat × Int)) :
+    (∃ pre c post, cands = pre ++ c :: post ∧ 0 < c.2 ∧ (∀ d ∈ post, ¬ 0 < d.2) ∧
+        lastPos cands = some c) ∨
+    ((∀ d ∈ cands, ¬ 0 < d.2) ∧ lastPos cands = none) :=
+  lastPosFrom_spec cands none
+
+/-- **C33.T5d** If the running total exceeds the draw (e.g. `r < 1 ≤` total) the walk never
+falls off the end. -/
+theorem c33_T5_no_fall_through (add : Int → Int → Int) (r : Int) (hr : 0 ≤ r)
+    (cands : List (Nat × Int)) (h : r < runSum add 0 cands) :
+    (firstExceed add r 0 cands).isSome = true := by
+  cases hf : firstExceed add r 0 cands with
+  | some c => rfl
+  | none =>
+    exfalso
+    cases cands with
+    | nil => simp [runSum] at h; omega
+    | cons c cs =>
+      have := firstExceed_none add r (c :: cs) 0 hf (c :: cs).length (by simp) (Nat.le_refl _)
+      simp only [List.take_length] at this
+      exact this h
+
+/-- The two regions on concrete data (probabilities in 1/8): an interior draw stops at the
+first exceeding index; with the absorbing addition of `c33_T2_legacy_fallback_false` the total
+stays at 2 < 3 ≤ exact sum and the walk ends on the last positive candidate, skipping the
+zero-probability tail. -/
+example :
+    multinomial .fixed (· + ·) 4 [(10, 0), (42, 3), (7, 0), (99, 5)] = some (99, 5) ∧
+    firstExceed (· + ·) 2 0 [(10, 0), (42, 3), (7, 0), (99, 5)] = some (42, 3) ∧
+    (let add : Int → Int → Int := fun c p => if 2 ≤ c then c else c + p
+     firstExceed add 3 0 [(0, 0), (1, 2), (2, 1), (3, 0)] = none ∧
+     lastPos [(0, 0), (1, 2), (2, 1), (3, 0)] = some (2, 1) ∧
+     multinomial .fixed add 3 [(0, 0), (1, 2), (2, 1), (3, 0)] = some (2, 1)) := by decide
+
+/-! ## T4 What is needed from softmax (order facts only) -/
+
+/-- **C33.T4a** For ANY probability vector satisfying the checked softmax facts that are
+needed here — non-negative, probability 0 for excluded (−∞) logits — and with some positive
+entry, `Multinomial::sample` (current code, any draw `≥ 0`, any addition with `add c 0 = c`)
+returns the id of a candidate whose logit is not excluded. -/
+theorem c33_T4_sample_not_excluded (add : Int → Int → Int) (hadd : ∀ c, add c 0 = c)
+    (r : Int) (hr : 0 ≤ r) (cs : List (Nat × Option Int × Int)) (one tol : Int)
+    (hf : SoftmaxFacts cs one tol) (hpos : ∃ c ∈ cs, 0 < c.2.2) :
+    ∃ c ∈ cs, sample .fixed add r (cs.map (fun c => (c.1, c.2.2))) = some (c.1, c.2.2) ∧
+      0 < c.2.2 ∧ c.2.1 ≠ none := by
+  have hnn : ∀ d ∈ cs.map (fun c => (c.1, c.2.2)), 0 ≤ d.2 := by
+    intro d hd
+    obtain ⟨c, hc, rfl⟩ := List.mem_map.mp hd
+    exact hf.nonneg c hc
+  have hp : ∃ d ∈ cs.map (fun c => (c.1, c.2.2)), 0 < d.2 := by
+    obtain ⟨c, hc, h0⟩ := hpos
+    exact ⟨(c.1, c.2.2), List.mem_map.mpr ⟨c, hc, rfl⟩, h0⟩
+  obtain ⟨res, hres, hmem, h0⟩ := c33_T2_sample_positive add hadd r _ hr hnn hp
+  obtain ⟨c, hc, rfl⟩ := List.mem_map.mp hmem
+  refine ⟨c, hc, hres, h0, ?_⟩
+  intro hnone
+  have := hf.excluded c hc hnone
+  simp only at h0
+  omega
+
+/-- **C33.T4b** Monotonicity is what links the two samplers: under the softmax facts, if
+anything has positive probability then every candidate with a maximal (non-excluded) logit
+has — so ArgMax's choice is always in Multinomial's support. -/
+theorem c33_T4_max_logit_positive (cs : List (Nat × Option Int × Int)) (one tol : Int)
+    (hf : SoftmaxFacts cs one tol) (hpos : ∃ c ∈ cs, 0 < c.2.2)
+    (m : Nat × Option Int × Int) (hm : m ∈ cs) (b : Int) (hb : m.2.1 = some b)
+    (hmax : ∀ c ∈ cs, ∀ a, c.2.1 = some a → a ≤ b) : 0 < m.2.2 := by
+  obtain ⟨c, hc, h0⟩ := hpos
+  cases ha : c.2.1 with
+  | none => have := hf.excluded c hc ha; omega
+  | some a =>
+    have := hf.mono c hc m hm a b ha hb (hmax c hc a ha)
+    omega
+
+/-- Non-vacuity: a concrete vector (scale 8 = probability 1, tolerance 1) meeting the facts. -/
+example : SoftmaxFacts [(10, none, 0), (42, some 3, 3), (7, some (-5), 0), (99, some 4, 5)] 8 1 := by
+  constructor
+  · decide
+  · decide
+  · decide
+  · intro c hc d hd a b ha hb hab
+    simp only [List.mem_cons, List.not_mem_nil, or_false] at hc hd
+    rcases hc with rfl | rfl | rfl | rfl <;> rcases hd with rfl | rfl | rfl | rfl <;>
+      simp_all <;> omega
+
 /-! ## T3 Same seed, same sequence -/
 
 /-- **C33.T3** A sampler is a state-passing function of its RNG state only: the sequence of
